@@ -26,6 +26,24 @@ def noise_item(rng):
     return isogen.ilst_item(code, rng.choice([0, 1, 21]), bytes(rng.randrange(256) for _ in range(rng.choice([0, 3, 40]))))
 
 
+def all_boxes(b):
+    out = [b]
+    for it in b.items:
+        if isinstance(it, isogen.Box):
+            out += all_boxes(it)
+    return out
+
+
+def enlarge(b, rng, p):
+    """64-bit size header on each box below (and including) b with probability p; returns a label of the boxes chosen"""
+    lab = []
+    for x in all_boxes(b):
+        if rng.random() < p:
+            x.large = True
+            lab.append(x.typ.decode("latin1").strip())
+    return "+".join(lab)[:40]
+
+
 def cases(rng, tier):
     out = []
     lens = [0, 1, 255] + ([70000] if tier != "quick" else [5000])
@@ -65,7 +83,22 @@ def cases(rng, tier):
             if rng.random() < 0.2:
                 u.items.insert(0, isogen.Box("Xtra", [isogen.Raw(b"abc")]))
             exp = tags if handler == "mdir" else {}
-            out.append(("s%x_y%d_f%d_%s_h%d" % (subset, year_bin, fullbox, handler, hdlr_first), movie_with(u), exp))
+            big = ""
+            if rng.random() < 0.45:
+                # 64-bit size headers on a random subset of the metadata boxes (udta, meta, hdlr, ilst, items, data): same tags
+                big = "_L" + enlarge(u, rng, rng.choice([0.3, 0.6, 1.0]))
+            out.append(("s%x_y%d_f%d_%s_h%d%s" % (subset, year_bin, fullbox, handler, hdlr_first, big), movie_with(u), exp))
+    # every single metadata box in the 64-bit header form, one at a time, on a file with all four tags
+    def all_four():
+        return isogen.udta([isogen.meta([isogen.ilst([isogen.ilst_item(b"\xa9too", 1, b"enc"), isogen.ilst_item(isogen.TITLE, 1, "Titre \u00e9".encode()),
+                                                      isogen.ilst_item(isogen.YEAR, 0, (1999).to_bytes(4, "big")), isogen.ilst_item(isogen.POSTER, 13, b"\xff\xd8\xff\xe0" * 9),
+                                                      isogen.ilst_item(isogen.SUMMARY, 1, b"summary")])], True, "mdir", hf)])
+    for hf in (True, False):
+        nb = len(all_boxes(all_four()))
+        for j in range(nb):
+            u = all_four()
+            all_boxes(u)[j].large = True
+            out.append(("large_one_h%d_%d" % (hf, j), movie_with(u), {"title": "Titre \u00e9".encode(), "year": 1999, "poster": b"\xff\xd8\xff\xe0" * 9, "summary": b"summary"}))
     for i, ytxt in enumerate((b"", b"+1999", b"02024", b" 2024", b"2024 ", b"4294967296", b"2024-05-17", b"-0", b"+")):
         out.append(("year_text_%d" % i, movie_with(isogen.udta([isogen.meta([isogen.ilst([isogen.ilst_item(isogen.YEAR, 1, ytxt)])])])), None))
     for i, (dt, pl) in enumerate(((0, b"\x07\xe8"), (0, b"\0\0\x07\xe8\0"), (21, b"\0\0\x07\xe8"), (13, b"\0\0\x07\xe8"))):
